@@ -487,6 +487,28 @@ impl<A: Cx> World<A> {
                         with_loose_iter(&xs, gu(op, "junk"), gs(op, "adaptor"), &mut |it| s.extend(it));
                         s
                     }
+                    // the (unstable, but public) conversions from bitvec's own types: the packed image is
+                    // built here, bit by bit, from the symbols' codes
+                    "bv" | "bs" | "bvcap" => {
+                        use bitvec::prelude::*;
+                        let pad = op["pad"].as_u64().unwrap_or(0) as usize;
+                        let mut bv: BitVec<usize, Lsb0> = if gs(op, "via") == "bvcap" { BitVec::with_capacity(4 * xs.len() * A::BITS as usize + 192) } else { BitVec::new() };
+                        for i in 0..pad {
+                            bv.push(i % 3 != 0);
+                        }
+                        for x in &xs {
+                            let b = x.to_bits();
+                            for j in 0..A::BITS {
+                                bv.push((b >> j) & 1 == 1);
+                            }
+                        }
+                        if gs(op, "via") == "bs" {
+                            Seq::<A>::from(&bv[pad..])
+                        } else {
+                            bv.drain(..pad);
+                            Seq::<A>::from(bv)
+                        }
+                    }
                     "pushes" => {
                         let mut s = Seq::<A>::with_capacity(xs.len() / 2);
                         for &x in &xs {
@@ -538,6 +560,14 @@ impl<A: Cx> World<A> {
                 } else {
                     gu(op, "n")
                 };
+                if op["via"].as_str() == Some("vecusize") {
+                    // From<Vec<usize>> for Seq<text::Dna>: the whole image, eight symbols per word
+                    assert!(A::NAME == "text" && n == words.len() * 8, "harness: vecusize is the text codec's whole image");
+                    let s: Seq<bio_seq::codec::text::Dna> = Seq::from(words.clone());
+                    let b: Box<dyn std::any::Any> = Box::new(s);
+                    let s: Seq<A> = *b.downcast::<Seq<A>>().expect("harness: codec is text");
+                    return json!({"ok": true, "v": self.put(gu(op, "dst"), s)});
+                }
                 match Seq::<A>::from_raw(n, &words) {
                     Some(s) => json!({"ok": true, "v": self.put(gu(op, "dst"), s)}),
                     None => json!({"ok": false}),
@@ -886,6 +916,10 @@ impl<A: Cx> World<A> {
                     },
                     "seq" => match kd::ucall::<A>(k, 0, UReq::FromSeq(s.to_owned())) {
                         URes::K(x) => x,
+                        _ => unreachable!(),
+                    },
+                    "unchecked" => match kd::kcall::<A>(k, st, 0, KReq::FromSliceUnchecked(s)) {
+                        KRes::K(x) => x,
                         _ => unreachable!(),
                     },
                     o => panic!("harness: via {o}"),
